@@ -2,7 +2,7 @@
 import ast
 from fractions import Fraction
 from sa import generic
-from sa.algebra import Rat, Poly, AlgebraError
+from sa.algebra import Rat, Poly, AlgebraError, parse_expr
 from sa.extract import straightline, single_assignments, inline, assignments_to, names_in
 from sa.srcmodel import func_params, own_nodes, dotted, positional_params
 from sa.tags import TagAnalysis, run_tags
@@ -131,40 +131,82 @@ def run(rep, prog, tier):
         generic.rule_sig(rep, prog, m, fn)
 
     # ---- R-EXH: dispatch on the number of grid sizes ------------------------------------------
-    d = find_dispatch(ef)
-    if d is None:
-        raise AnalysisError('anchor vanished: the dispatch on len(pts_l) in make_extrap_func.extrap_func')
-    arms, els, head, lenvar = d
-    ks = [k for k, _, _ in arms]
-    rep.ob('R-EXH', 'Numerics.make_extrap_func dispatch', sorted(ks) == [1, 2, 3, 4, 5, 6] and len(set(ks)) == len(ks),
-           'arms for k=%s (documented domain 1..6)' % ks, m.rel, head.lineno, what='k = 1..6 each have exactly one arm')
-    raises = any(isinstance(s, ast.Raise) for s in els)
-    rep.ob('R-EXH', 'Numerics.make_extrap_func dispatch', raises,
-           'the final else raises' if raises else 'the final else does not raise: other grid counts fall through',
-           m.rel, head.lineno, what='other counts raise')
+    # decided by finite-domain abstract execution of make_extrap_func(func)(pts_l) for 0..7 grid sizes: which handler is
+    # called, with which lists - however the selection is written (if/elif chain, table, helper returning the handler)
+    from sa import miniexec as mx
+    from sa import alpha
+    known = alpha.load_table().get('__params__', {}).get(m.rel)
+    known = set(known) if known is not None else set(m.funcs)
+
+    def hook(name, args, kwargs):
+        if name in ('numpy.isscalar', 'np.isscalar'):
+            return False
+        return NotImplemented
     handlers = {}
+    handler_fn_names = set()
+    for k in range(0, 8):
+        it = mx.Interp(prog, m, call_hook=hook, known_functions=known)
+
+        def thunk(it=it, k=k):
+            wrapper = it.call_function(outer, it.bind(outer, [mx.Sym('func', truth=True)], {'fail_mag': mx.Sym('fail_mag')}))
+            if not isinstance(wrapper, mx.FuncRef):
+                raise mx.Undecidable('make_extrap_func does not return a function')
+            return it.apply(wrapper, [mx.Sym('pts_l', length=k)], {})
+        paths = it.run_thunk(thunk, 'make_extrap_func(func)(pts_l)')
+        problems = []
+        chosen = set()
+        for outcome, events, dec in paths:
+            hcalls = [e for e in events if e[0] == 'call' and prog.has_func(MOD, e[1]) and e[1] not in ('make_extrap_func',)]
+            if k == 0 or k == 7:
+                if outcome[0] != 'raise' or hcalls:
+                    problems.append('%d grid sizes: expected an exception, found %s' % (k, 'a call of ' + hcalls[0][1] if hcalls else outcome[0]))
+                continue
+            if outcome[0] != 'return':
+                problems.append('%d grid sizes raise %s' % (k, outcome[1]))
+                continue
+            if k == 1:
+                if hcalls or mx.show(outcome[1]) != 'func(pts_l[0])':
+                    problems.append('a single grid size does not return the only result (%s)' % mx.show(outcome[1])[:60])
+                continue
+            if len(hcalls) != 1:
+                problems.append('%d grid sizes: %d handler calls' % (k, len(hcalls)))
+                continue
+            _, hname, hargs, hkw = hcalls[0]
+            chosen.add(hname)
+            want_y = '[' + ', '.join('func(pts_l[%d])' % i for i in range(k)) + ']'
+            want_x = '[' + ', '.join('func(pts_l[%d]).extrap_x' % i for i in range(k)) + ']'
+            got = [mx.show(a) for a in hargs]
+            if hkw or got != [want_y, want_x]:
+                problems.append('%d grid sizes: %s receives (%s)' % (k, hname, ', '.join(g[:80] for g in got)))
+        if 2 <= k <= 6 and len(chosen) == 1 and not problems:
+            hname = next(iter(chosen))
+            handlers[k] = (prog.func(MOD, hname), None)
+            handler_fn_names.add(hname)
+        elif 2 <= k <= 6 and not problems:
+            problems.append('%d grid sizes: handlers %s' % (k, sorted(chosen)))
+        rep.ob('R-EXH', 'Numerics.make_extrap_func dispatch k=%d' % k, not problems,
+               '%d path(s) executed abstractly%s' % (len(paths), '' if not problems else ': ' + '; '.join(problems[:3])), m.rel, ef.lineno,
+               what=('k = 2..6: exactly one handler, called with the results and their x values in the order of the grid list' if 2 <= k <= 6 else
+                     'k = 1 returns the only result' if k == 1 else 'other counts raise'))
+    # the call site(s) of the handlers in extrap_func: a two-argument call of a handler, or of the value of another call (a helper
+    # that returns the handler)
+    hsites = [n for n in own_nodes(ef) if isinstance(n, ast.Call) and len(n.args) == 2 and not n.keywords and all(isinstance(a, ast.Name) for a in n.args)
+              and ((dotted(n.func) in handler_fn_names) or isinstance(n.func, (ast.Call, ast.Subscript)) or
+                   (isinstance(n.func, ast.Name) and n.func.id not in ('map', 'zip', 'min', 'max', 'isinstance', 'getattr', 'hasattr', 'range', 'divmod', 'pow')
+                    and prog.resolve_call(m, n, scope=ef) is None and n.func.id not in ('func', 'partial_func')))]
+    if not hsites:
+        raise AnalysisError('anchor vanished: the call of the extrapolation handler in make_extrap_func.extrap_func')
     resvar = None
-    for k, body, node in arms:
-        asg = [s for s in body if isinstance(s, ast.Assign) and len(s.targets) == 1 and isinstance(s.targets[0], ast.Name)]
-        if len(asg) != 1 or len(body) != 1:
-            raise AnalysisError('dispatch arm k=%d has an unexpected shape' % k)
-        st = asg[0]
-        if resvar is None:
-            resvar = st.targets[0].id
-        rep.ob('R-EXH', 'dispatch arm k=%d' % k, st.targets[0].id == resvar, 'binds %s' % st.targets[0].id, m.rel, st.lineno,
-               what='all arms bind the same result variable')
-        if isinstance(st.value, ast.Call):
-            callee = prog.resolve_call(m, st.value, scope=ef)
-            nm = dotted(st.value.func)
-            ok = callee is not None
-            rep.ob('R-NAME', 'dispatch arm k=%d' % k, ok,
-                   ('handler %s resolves to %s:%d' % (nm, callee._module.rel, callee.lineno)) if ok else
-                   'handler %r called for %d grid sizes is not defined anywhere in the repository' % (nm, k),
-                   m.rel, st.lineno, what='handler %s exists' % nm)
-            if ok:
-                handlers[k] = (callee, st.value)
-        else:
-            handlers[k] = (None, st.value)
+    for n in hsites:
+        par = getattr(n, '_parent', None)
+        if isinstance(par, ast.Assign) and len(par.targets) == 1 and isinstance(par.targets[0], ast.Name):
+            resvar = resvar or par.targets[0].id
+    if resvar is None:
+        raise AnalysisError('anchor vanished: the variable that receives the extrapolated result in extrap_func')
+    for k, (callee, _) in list(handlers.items()):
+        handlers[k] = (callee, hsites[0])
+        rep.ob('R-NAME', 'dispatch arm k=%d' % k, True, 'handler %s resolves to %s:%d' % (callee.name, callee._module.rel, callee.lineno), m.rel, hsites[0].lineno,
+               what='handler %s exists' % callee.name)
 
     # ---- R-ALG: each handler is the Lagrange form at 0 -----------------------------------------
     for k, (callee, valnode) in sorted(handlers.items()):
@@ -193,7 +235,15 @@ def run(rep, prog, tier):
         try:
             env, ret = straightline(callee)
         except AlgebraError as e:
-            raise AnalysisError('handler %s is not a branch-free formula: %s' % (callee._qualname, e))
+            # not a branch-free formula (a loop over the points, a helper): evaluate it abstractly on k symbolic points
+            try:
+                it = mx.Interp(prog, callee._module, known_functions=known)
+                paths = it.run(callee, {params[0]: mx.Sym(params[0], length=k), params[1]: mx.Sym(params[1], length=k)})
+                if len(paths) != 1 or paths[0][0][0] != 'return' or not isinstance(paths[0][0][1], mx.Sym):
+                    raise AnalysisError('handler %s is not recognised as a formula: %s' % (callee._qualname, e))
+                ret = parse_expr(paths[0][0][1].text)
+            except (mx.Undecidable, AlgebraError) as e2:
+                raise AnalysisError('handler %s is not recognised as a formula: %s / %s' % (callee._qualname, e, e2))
         if ret is None:
             rep.ob('R-ALG', callee._qualname, False, 'handler returns nothing', callee._module.rel, callee.lineno, what='lagrange form')
             continue
@@ -222,7 +272,8 @@ def run(rep, prog, tier):
                        callee.lineno, what='Lagrange interpolant at x=0 (sympy)')
 
     # ---- R-SPACE typestate in both worlds -----------------------------------------------------
-    handler_names = {dotted(v.func) for _, (c, v) in handlers.items() if isinstance(v, ast.Call)}
+    handler_names = set(handler_fn_names)
+    hsite_ids = {id(n) for n in hsites}
     for world_log in (False, True):
         space = 'log' if world_log else 'nat'
         divs = []
@@ -240,7 +291,7 @@ def run(rep, prog, tier):
                 return 'nat'
             if fn in ('list', 'tuple', 'numpy.asarray', 'numpy.array'):
                 return args[0] if args else None
-            if fn in handler_names:
+            if fn in handler_names or id(e) in hsite_ids:
                 return args[0] if args else None
             return None
 
@@ -258,10 +309,10 @@ def run(rep, prog, tier):
                              call_rule=call_rule, attr_rule=attr_rule, binop_rule=binop_rule)
         n_handler_calls = 0
         for (e, args, kws, s) in an.calls:
-            if dotted(e.func) in handler_names:
+            if dotted(e.func) in handler_names or id(e) in hsite_ids:
                 n_handler_calls += 1
                 ok = len(args) == 2 and args[0] == space and args[1] == 'x'
-                rep.ob('R-SPACE', 'extrap_func[extrap_log=%s] call %s' % (world_log, dotted(e.func)), ok,
+                rep.ob('R-SPACE', 'extrap_func[extrap_log=%s] call %s' % (world_log, dotted(e.func) or 'handler'), ok,
                        'arguments carry tags %s; expected (%s results, x values)' % (args, space), m.rel, e.lineno,
                        what='handler receives %s-space results and the x list' % space)
         rets = [(st, t) for (st, t, s) in an.returns]
@@ -305,12 +356,12 @@ def run(rep, prog, tier):
             det = 'criterion `%s`; operand tags %s' % (ast.unparse(c), tags)
         rep.ob('R-SPACE', 'extrap_func[extrap_log=%s] failure criterion' % world_log, okc, det, m.rel, live[0].lineno if live else ef.lineno,
                what='failure criterion is |log10(extrapolated/finest)| > fail_mag with natural-space operands (units of decades)')
-    rep.floor('R-SPACE', 14, 'handler calls, returns and the failure ratio in two worlds')
+    rep.floor('R-SPACE', 2 * (len(hsites) + 2), 'handler calls, returns and the failure ratio in two worlds')
 
     # ---- fallback plumbing ---------------------------------------------------------------------
     singles = single_assignments(ef)
     # results list and x list names, as passed to the handlers
-    any_call = next(v for _, (c, v) in sorted(handlers.items()) if isinstance(v, ast.Call))
+    any_call = hsites[0]
     res_name, x_name = ast.unparse(any_call.args[0]), ast.unparse(any_call.args[1])
     # (a) best input chosen by argmin over the x list
     best = None
